@@ -33,3 +33,18 @@ func nativeValidate(v any, tag string) (err error) {
 type errPanicInValidator struct{ r any }
 
 func (e errPanicInValidator) Error() string { return "validator panicked" }
+
+var nativeValidatorPlain = validator.New()
+
+// nativeValidateStruct: the real validator on a natively rebuilt struct, configured like the handle
+func nativeValidateStruct(v any, requiredStruct bool) (err error) {
+	defer func() {
+		if r := recover(); r != nil {
+			err = errPanicInValidator{r}
+		}
+	}()
+	if requiredStruct {
+		return nativeValidator.Struct(v)
+	}
+	return nativeValidatorPlain.Struct(v)
+}
